@@ -1429,6 +1429,33 @@ pub fn gen(ctx: &Ctx, emit: &mut dyn FnMut(String)) {
             emit(format!("c01 convert - le {line}"));
         }
     }
+    // line programs the writer cannot express: an address left unaligned by fixed_advance_pc under
+    // minimum_instruction_length > 1, DW_LNE_define_file with an empty name (both used to panic)
+    for mil in [1u8, 2, 4, 8] {
+        for adv in [0u16, 1, 2, 3, 4, 5, 7, 8] {
+            let mut prog = vec![0u8, 9, 2, 0, 0x10, 0, 0, 0, 0, 0, 0, 1, 9];
+            prog.extend_from_slice(&adv.to_le_bytes());
+            prog.extend_from_slice(&[1, 2, 1, 0x21, 9]);
+            prog.extend_from_slice(&adv.to_le_bytes());
+            prog.extend_from_slice(&[0, 1, 1]);
+            let s = crate::prop::c12::assembled_line_unit_mil(mil, -5, 14, &prog);
+            let line = s.iter().filter(|(_, d)| !d.is_empty()).map(|(n, d)| format!("{n}={}", hex(d))).collect::<Vec<_>>().join(";");
+            emit(format!("c01 convert - le {line}"));
+        }
+    }
+    for name in [&b"\0"[..], &b"x.c\0"[..]] {
+        let mut prog = vec![0u8, 9, 2, 0, 0x10, 0, 0, 0, 0, 0, 0];
+        prog.push(0);
+        prog.push((1 + name.len() + 3) as u8);
+        prog.push(3);
+        prog.extend_from_slice(name);
+        prog.extend_from_slice(&[0, 0, 0]);
+        prog.extend_from_slice(&[4, 3, 1, 2, 4, 0, 1, 1]);
+        let s = crate::prop::c12::assembled_line_unit_with(-5, 14, &prog);
+        let line = s.iter().filter(|(_, d)| !d.is_empty()).map(|(n, d)| format!("{n}={}", hex(d))).collect::<Vec<_>>().join(";");
+        emit(format!("c01 convert - le {line}"));
+        emit(format!("c01 dwarf - le {line}"));
+    }
     // deeply nested DW_OP_entry_value: reading is flat, conversion used to recurse without bound
     for depth in [1usize, 2, 63, 64, 65, 66, 200, 1000, 20000] {
         let s = crate::prop::c12::assembled_expr_unit(&crate::prop::c12::nested_entry_value(depth));
